@@ -206,7 +206,34 @@ def regex_layer_with_any_layer(ctx: Ctx, n: int):
         ctx.mark_nontrivial(("rxlayer", pat, tuple(nodes)))
 
 
+def empty_layer_name_stream(ctx, n):
+    """A layer may be called anything, the empty string included: the verdicts of all rule shapes are those of the same layers
+    under ordinary names (the API accepts "" as a layer name; which name a layer bears decides nothing)."""
+    for _ in range(n):
+        c = gen_case(ctx.rng)
+        if c is None:
+            continue
+        c["obj_as_str"] = False
+        arch = rules.make_arch_direct(c["nodes"], c["edges"])
+        hs, metas = histories(c)
+        base = [layers.run_lr_impl(h, arch)[0] for h in hs]
+        for victim in {c["subj"], c["objs"][0]}:
+            ren = lambda x: "" if x == victim else x
+            c2 = dict(c, arch_calls=[(ren(L), k, v) for (L, k, v) in c["arch_calls"]], subj=ren(c["subj"]), objs=[ren(x) for x in c["objs"]])
+            hs2, _ = histories(c2)
+            out = [layers.run_lr_impl(h, arch)[0] for h in hs2]
+            ctx.evaluations += len(out)
+            ctx.stat("layer_named_with_the_empty_string")
+            if out != base:
+                i = next(i for i in range(len(out)) if out[i] != base[i])
+                ctx.violation(dict(nodes=c["nodes"], edges=c["edges"], layers=[list(x) for x in c["arch_calls"]], layer_renamed_to_empty_string=victim, rule=metas[i], verdict=base[i], verdict_with_empty_name=out[i]),
+                              f"layer rule verdict changes when layer {victim} is called '' instead", {"kind": "empty_layer_name"})
+                break
+        ctx.mark_nontrivial(("emptyname", tuple(c["nodes"])))
+
+
 def run(ctx: Ctx):
+    empty_layer_name_stream(ctx, 40 if ctx.quick else 1000)
     regex_layer_with_any_layer(ctx, 150 if ctx.quick else 4000)
     n = 4000 if ctx.quick else 120000
     per = 50
